@@ -1112,7 +1112,7 @@ def run(ctx):
     rng = ctx.rng
     for c in load_corpus(ctx):
         run_one(ctx, res, c, big)
-    for _ in range(ctx.budget(110, 2500)):
+    for _ in range(ctx.budget(110, 400)):
         spec = gen_spec(rng, big)
         case = gen_case(rng, spec, big)
         if rng.random() < 0.3:
@@ -1124,7 +1124,7 @@ def run(ctx):
                     t = t[:rng.randrange(len(t))]
                 case['file'] = t.hex()
         check_case(ctx, res, spec, case, quick_crash=None if big else 4)
-    for _ in range(ctx.budget(12, 250)):
+    for _ in range(ctx.budget(12, 40)):
         check_corruptions(ctx, res, gen_spec(rng, False), big)
     return res
 
